@@ -53,6 +53,12 @@ def cases(tier, seed):
             for vop in ("complete", "submit", "cancel_queued"):
                 out.append({"name": "throttle.sweep/client/count=%s/block=%d/%s" % (c, block, vop), "kind": "sweep",
                             "victim": "client", "count": c, "block": block, "trigger": vop, "cap": cap})
+    # suspension points at instruction boundaries (the in-flight counter's read-modify-write, queue pops)
+    for c in (2,):
+        for victim, trig in (("client", "complete"), ("worker", "complete"), ("client", "submit"), ("worker", "submit")):
+            for queued in (0, 1):
+                out.append({"name": "throttle.sweep-instr/%s/count=%s/queued=%d/%s" % (victim, c, queued, trig), "kind": "sweep", "victim": victim,
+                            "count": c, "block": False, "trigger": trig, "cap": None, "gran": "instr", "queued": queued})
     return out
 
 
@@ -341,7 +347,7 @@ class TScenario(object):
         w = TWorld(ctx, self.case["count"], False if self.case["trigger"] == "x" else self.case["block"])
         ctx.w = w
         # fill: count in flight + 1 queued (blocking mode: a full queue of count entries)
-        n = self.case["count"] * 2 if self.case["block"] else self.case["count"] + 1
+        n = self.case["count"] * 2 if self.case["block"] else self.case["count"] + self.case.get("queued", 1)
         for i in range(n):
             s = w.new_sub()
             w.do_submit(s)
@@ -377,16 +383,10 @@ class TScenario(object):
             # capacity is freed and handed over, then another submitter comes in
             for k in list(ctx.w.inflight_items()):
                 ctx.w.me.complete(k, 1)
-            me = ctx.actors[-1] if ctx.actors else None
             try:
-                if me is not None:
-                    me.external = True
-                instr.settle(2.0)
+                instr.wait_for(instr.quiescent_but_me, timeout=2.0)
             except Inconclusive:
                 pass
-            finally:
-                if me is not None:
-                    me.external = False
             self.produce(ctx, "submit")
 
     def start_victim(self, ctx):
@@ -450,6 +450,21 @@ class TScenario(object):
                 w.me.complete(k, 1)
             instr.advance(D)
             w.check_quiescent(res, label + "/drain@%s" % (info.get("site"),))
+        # a damaged in-flight count shows only under new load: fill up again (non-blocking mode), then drain
+        if not w.block and not LM.deadlocks:
+            lim = w.limit_now()
+            for _ in range((lim if isinstance(lim, int) else 2) + 2):
+                w.do_submit(w.new_sub())
+            instr.advance(D)
+            w.check_quiescent(res, label + "/refill@%s" % (info.get("site"),))
+            for _ in range(10):
+                p = w.inflight_items()
+                if not p and not w.queued():
+                    break
+                for k in p:
+                    w.me.complete(k, 1)
+                instr.advance(D)
+                w.check_quiescent(res, label + "/refill-drain@%s" % (info.get("site"),))
         w.check_arrivals(res, label)
         if info.get("hit"):
             res.key(label, info.get("site"))
@@ -464,7 +479,7 @@ def run_sweep(case, res):
         if case["block"] and case["trigger"] == "submit":
             seconds.append("complete+submit")
     for second in seconds:
-        sw = Sweep(TScenario(case, second), res, "vt", case["name"])
+        sw = Sweep(TScenario(case, second), res, "vt", case["name"], gran=case.get("gran"))
         # the two-submitter race needs a placement between clear/check and wait: sweep it completely
         sw.run(None if second == "complete+submit" else case["cap"], rng, per_site=2)
         if harness.need_recycle():
